@@ -14,6 +14,10 @@ type EmitOpts struct {
 	Plugins []string          // subset of plug.Names; protoc-gen-go is always run
 	Params  map[string]string // plugin -> parameter string
 	NoGlue  bool
+	// PerFile: every plugin is invoked once per file to generate (file_to_generate = that file alone, the
+	// others are imports only), the way per-file / per-package build rules invoke protoc; the outputs are
+	// put together. What a plugin emits for a file must not depend on what else is generated in the run.
+	PerFile bool
 }
 
 // Emitted is what one schema produced.
@@ -42,6 +46,18 @@ func (w *Workspace) Emit(set *plug.Set, s *abs.Schema, o EmitOpts) (*Emitted, er
 	has := map[string]bool{}
 	for _, p := range o.Plugins {
 		r := set.Run(p, b.Request(o.Params[p], nil), plug.RunOpts{})
+		if gen := generateFiles(s); o.PerFile && len(gen) > 1 {
+			r = &plug.Result{Plugin: p, Exit: "files"}
+			for _, g := range gen {
+				one := set.Run(p, b.Request(o.Params[p], []string{g}), plug.RunOpts{})
+				if !one.OK() {
+					r = one
+					break
+				}
+				r.Files = append(r.Files, one.Files...)
+				r.Ms += one.Ms
+			}
+		}
 		em.Results[p] = r
 		if r.OK() {
 			has[p] = true
@@ -117,4 +133,14 @@ func (w *Workspace) WriteDriver(dir string, pkgs []PkgSpec) error {
 	}
 	b.WriteString("\tdrv.Main()\n}\n")
 	return w.WriteFile(dir+"/main.go", b.String())
+}
+
+func generateFiles(s *abs.Schema) []string {
+	var out []string
+	for _, f := range s.Files {
+		if f.Generate {
+			out = append(out, f.Name)
+		}
+	}
+	return out
 }
